@@ -31,6 +31,7 @@ def main():
     demos, feats, miri = [], [], False
     release, examples = False, []
     twin = None
+    nightly, miri_target, miriflags = False, None, None
     a = sys.argv[4:]
     i = 0
     while i < len(a):
@@ -44,6 +45,12 @@ def main():
             release = True
         elif a[i] == "--demo-example":
             examples.append(a[i + 1]); i += 1
+        elif a[i] == "--nightly":
+            nightly = True
+        elif a[i] == "--miri-target":
+            miri_target = a[i + 1]; i += 1
+        elif a[i] == "--miriflags":
+            miriflags = a[i + 1]; i += 1
         elif a[i] == "--twin":
             twin = a[i + 1]; i += 1  # the demo uses an API the change adds: "without" = the correct twin of the change
         i += 1
@@ -59,7 +66,7 @@ def main():
         if rc != 0:
             print("PATCH DOES NOT APPLY\n" + out); return 1
         sh(["git", "apply", patch], cwd=S)
-        tool = ["cargo", "+nightly"] if (feats and "--all-features" in feats) or miri else ["cargo"]
+        tool = ["cargo", "+nightly"] if (feats and "--all-features" in feats) or miri or nightly else ["cargo"]
         rc, out = sh(tool + ["test", "--offline"] + feats, cwd=S, env={"CARGO_TARGET_DIR": tgt})
         tests_pass = rc == 0
         ran.append("%s test --offline %s (patched): %s" % (" ".join(tool), " ".join(feats), "pass" if tests_pass else "FAIL"))
@@ -72,7 +79,9 @@ def main():
             shutil.copy2(os.path.join(seed, "demo", d), os.path.join(S, "tests", os.path.basename(d)))
         for d in demos:
             tname = os.path.basename(d)[:-3]
-            cmd = (["cargo", "+nightly", "miri", "test"] if miri else tool + ["test", "--offline"]) + feats + (["--release"] if release else []) + ["--test", tname]
+            cmd = (["cargo", "+nightly", "miri", "test"] + (["--target", miri_target] if miri_target else []) if miri else tool + ["test", "--offline"]) + feats + (["--release"] if release else []) + ["--test", tname]
+            if miriflags:
+                os.environ["MIRIFLAGS"] = miriflags
             rc1, o1 = sh(cmd, cwd=S, env={"CARGO_TARGET_DIR": tgt})
             sh(["git", "apply", "-R", patch], cwd=S)
             if twin:
